@@ -19,7 +19,7 @@ def judge(req, impl, f, prev):
     sp = f[1] if len(f) > 1 else '-'
     if sp != '-':
         so, sd = sp.split(' ## ')
-        if not vlib.res_equal(io, so):
+        if not vlib.res_equal(io, so, req):
             return (so, 'result differs from the reference tree filesystem')
         if vlib.abs_of_dump(impl) != sd:
             return (sd, 'resulting tree differs from the reference tree filesystem')
